@@ -454,3 +454,110 @@ func runC16In(p c16In, c *stats.Case) error {
 }
 
 func TestC16_Inbound(t *testing.T) { pbt.Run(t, "C16", "inbound", genC16In, runC16In) }
+
+// ---------------------------------------------------------------------------
+// C16 history: a finished inbound transfer must not give back the slot of a later one. The receiving
+// goroutine of a completed transfer lingers until its second accept times out (15 s) and releases its
+// permit once more; that late release must stay a no-op while other transfers hold their slots.
+
+type c16Reuse struct {
+	Limit int // 1..3
+	N1    int // transfers completed in phase 1
+	N2    int // transfers granted (and left waiting) in phase 2
+}
+
+func genC16Reuse(t *rapid.T) c16Reuse {
+	l := rapid.IntRange(1, 3).Draw(t, "limit")
+	return c16Reuse{Limit: l, N1: rapid.IntRange(1, l).Draw(t, "n1"), N2: rapid.IntRange(1, l).Draw(t, "n2")}
+}
+
+func runC16Reuse(p c16Reuse, c *stats.Case) error {
+	hub := simnet.NewHub()
+	b, err := pp.NewLive(hub, pp.LiveOpts{KeyIdx: 93, Port: nextPort(), Versions: []byte{1}, MaxUtp: p.Limit, UtpFast: true, RespTimeout: 20 * time.Second})
+	if err != nil {
+		return fmt.Errorf("harness: %v", err)
+	}
+	defer b.Stop()
+	a, err := pp.NewLive(hub, pp.LiveOpts{KeyIdx: 94, Port: nextPort(), Versions: []byte{1}, UtpFast: true})
+	if err != nil {
+		return fmt.Errorf("harness: %v", err)
+	}
+	defer a.Stop()
+	if _, err := a.P.VerifPing(b.Node()); err != nil {
+		return fmt.Errorf("harness: ping: %v", err)
+	}
+	addrA := &net.UDPAddr{IP: net.IP{127, 0, 0, 1}, Port: a.Opts.Port}
+	offer := func(tag string, i int) (uint16, [][]byte, bool, error) {
+		key := append([]byte{0x00}, []byte(fmt.Sprintf("c16reuse-%s-%d", tag, i))...)
+		content := fillBytes(40, byte(i))
+		reply, err := b.P.VerifHandleOffer(a.Node(), addrA, &portalwire.Offer{ContentKeys: [][]byte{key}})
+		if err != nil {
+			return 0, nil, false, err
+		}
+		cid, acc, _, perr := parseAccept(reply, 1, 1)
+		if perr != nil {
+			return 0, nil, false, perr
+		}
+		return cid, [][]byte{content}, acc[0], nil
+	}
+	// phase 1: complete N1 transfers
+	for i := 0; i < p.N1; i++ {
+		cid, contents, ok, err := offer("one", i)
+		if err != nil {
+			return err
+		}
+		if !ok {
+			return fmt.Errorf("phase 1: offer %d not accepted although slots are free", i)
+		}
+		ctx, cancel := context.WithTimeout(context.Background(), 8*time.Second)
+		conn, derr := a.Utp.DialWithCid(ctx, b.Node(), cid)
+		if derr != nil {
+			cancel()
+			stats.For("C16").Count("inconclusive:reuse-dial-failed", 1)
+			return nil
+		}
+		_, _ = conn.Write(ctx, portalwire.VerifEncodeContents(contents))
+		conn.Close()
+		cancel()
+	}
+	if in := waitFreeInbound(b, p.Limit, 8*time.Second); in != p.Limit {
+		stats.For("C16").Count("inconclusive:reuse-phase1-not-finished", 1)
+		return nil
+	}
+	t1 := time.Now()
+	go func() { // drain the validation queue
+		for i := 0; i < p.N1; i++ {
+			select {
+			case <-b.Queue:
+			case <-time.After(5 * time.Second):
+				return
+			}
+		}
+	}()
+	// phase 2, six seconds later: N2 offers are granted a transfer and left waiting for a dial
+	time.Sleep(6 * time.Second)
+	grants := 0
+	for i := 0; i < p.N2; i++ {
+		_, _, ok, err := offer("two", i)
+		if err != nil {
+			return err
+		}
+		if ok {
+			grants++
+		}
+	}
+	if grants != p.N2 {
+		return fmt.Errorf("phase 2: %d of %d offers accepted although %d slots were free", grants, p.N2, p.Limit)
+	}
+	// 18 s after phase 1 its lingering goroutines have given up (15 s accept time-out) and released again;
+	// phase 2 keeps its slots until 21 s
+	time.Sleep(time.Until(t1.Add(18 * time.Second)))
+	in, _ := b.Utp.VerifFreeSlots()
+	c.NT("late-release-of-finished-transfer")
+	if in != p.Limit-grants {
+		return fmt.Errorf("%d transfers are waiting for their dial with a limit of %d, but %d inbound slots are obtainable: the late release of a finished transfer gave back the slot of a running one", grants, p.Limit, in)
+	}
+	return nil
+}
+
+func TestC16_Reuse(t *testing.T) { pbt.Run(t, "C16", "reuse", genC16Reuse, runC16Reuse) }
